@@ -786,9 +786,18 @@ def _int_bit_length(it, self, args, kw):
         return VInt(self.conc.bit_length())
     BL = z3.Function("BIT_LENGTH", I, I)
     t = BL(self.e)
-    # 2**(t-1) <= |x| < 2**t is nonlinear; only the facts needed so far:
-    it.assume(t >= 0)
-    it.assume(z3.Implies(self.e == 0, t == 0))
+    key = ("bit_length", self.e.sexpr())
+    if key not in it.euclid:
+        it.euclid[key] = True
+        it.assume(t >= 0)
+        it.assume(z3.Implies(self.e == 0, t == 0))
+        # exact definition on the range the value provably lies in (2**(t-1) <= |x| < 2**t is nonlinear in general):
+        # a chain of linear facts, one per bit position, up to 640 bits (covers every key size and every 64-bit quantity)
+        if it.must(z3.And(self.e >= 0, self.e < 2 ** 640)):
+            for k in range(1, 641):
+                it.assume(z3.Implies(z3.And(self.e >= 2 ** (k - 1), self.e < 2 ** k), t == k))
+        else:
+            it.assumptions_used.add("int.bit_length on a value not proved to be in [0, 2**640): only `>= 0` and `0 for 0` are known")
     return VInt(t)
 
 
